@@ -321,6 +321,9 @@ def _apply(v, e, c, ne, rse, mon, hist, sigs, label, ncells0):
         for x in vp:
             cnt[x] = cnt.get(x, 0) + 1
     has_chain = rse and topo.contraction_chain(t, ne)
+    # runs of exactly two: contracted correctly in general; the one known failure there is an IndexError in the bookkeeping
+    # of join_two_vertices (same finding), nothing else is excused
+    run_of_two = rse and not has_chain and topo.contraction_chain(t, ne, min_interfaces=2)
     nfail0 = len(mon.fails)
     try:
         out = ve.generate_mesh(v, e, c, ne=ne, replace_short_edges=rse)
@@ -332,7 +335,8 @@ def _apply(v, e, c, ne, rse, mon, hist, sigs, label, ncells0):
     except Exception as exc:
         import traceback
         CTX.pop("cur", None)
-        mon.fail("F-CONTRACT-CHAIN" if has_chain else "raises", "resampling returns a mesh", exc=repr(exc)[:200], ne=ne, rse=rse, chain=has_chain, label=label,
+        known_ = has_chain or (run_of_two and isinstance(exc, IndexError) and "join_two_vertices" in traceback.format_exc())
+        mon.fail("F-CONTRACT-CHAIN" if known_ else "raises", "resampling returns a mesh", exc=repr(exc)[:200], ne=ne, rse=rse, chain=has_chain, label=label,
                  tb=traceback.format_exc()[-500:])
         return None
     CTX.pop("cur", None)
